@@ -185,10 +185,11 @@ def box_inner(b):
 
 class ArcObj:
     """Arc<T> / RwLock<T> share one identity object"""
-    __slots__ = ('cell', 'readers', 'writer', 'tag')
+    __slots__ = ('cell', 'readers', 'writer', 'tag', 'rowners')
 
     def __init__(self, v, tag=''):
         self.cell, self.readers, self.writer, self.tag = [v], 0, None, tag
+        self.rowners = []
 
     def __repr__(self):
         return 'Arc#%x(%r)' % (id(self) & 0xffff, self.cell[0])
